@@ -26,11 +26,62 @@ ANCHORS = [("leuvenmapmatching/matcher/base.py", "BaseMatcher._match_states"),
            ("leuvenmapmatching/map/sqlite.py", "SqliteMap.nodes_nbrto"),
            ("leuvenmapmatching/map/sqlite.py", "SqliteMap.edges_nbrto")]
 FLOORS = {"consecutive_pairs": 6000, "pairs_inside_nonemitting_runs": 700, "paths_judged": 4000, "nodes_only_views": 3000, "linked_edge_maps": 200,
-          "sqlite_maps": 200, "oneway_maps": 800, "selfloop_maps": 300, "uturn_moves": 100, "linked_moves": 5}
+          "sqlite_maps": 200, "oneway_maps": 800, "selfloop_maps": 300, "uturn_moves": 100, "linked_moves": 5, "lattice_links_scanned": 100000, "shared_end_linked_cases": 300, "shared_end_cases_using_the_linked_move": 50}
 ASSUMPTIONS = ["after continue_with_distance (a jump operation) only the existence of the states is judged, as the property states"]
 
 
+def gen_shared_end_case(rng):
+    """hostile class for linked parallel edges: two edges (A,B) and (C,B) END in the same node, only one of them is linked to a
+    distant edge (P,Q); both are reached at the same non-emitting depth from the start, and the next observation lies on (P,Q).
+    A successor list that is computed per end node instead of per edge offers (C,B) -> (P,Q), which the map does not."""
+    j = lambda v: v + rng.uniform(-0.15, 0.15)
+    pts = {"S": (0.0, 0.0), "A": (1.0, 1.0), "C": (1.0, -1.0), "B": (2.0, 0.0), "E": (3.0, 0.0),
+           "P": (rng.choice([2.2, 2.6, 3.0]), rng.choice([2.0, 2.5, -2.0, -2.5])), "T": (-1.0, 0.0)}
+    pts["Q"] = (pts["P"][0] + 1.0, pts["P"][1])
+    pts["R"] = (pts["Q"][0] + 1.0, pts["Q"][1])
+    names = list(pts)
+    lab = dict(zip(names, rng.sample(range(10, 99), len(names))))
+    if rng.random() < 0.3:
+        lab = {k: "n%d" % v for k, v in lab.items()}
+    und = [("T", "S"), ("S", "A"), ("S", "C"), ("A", "B"), ("C", "B"), ("B", "E"), ("P", "Q"), ("Q", "R")]
+    edges = []
+    for a, b in und:
+        edges.append([lab[a], lab[b]])
+        if rng.random() < 0.35:
+            edges.append([lab[b], lab[a]])
+    rng.shuffle(edges)
+    nodes = [[lab[k], [j(v[0]), j(v[1])]] for k, v in pts.items()]
+    rng.shuffle(nodes)
+    first, second = ("A", "C") if rng.random() < 0.5 else ("C", "A")
+    linked = [[[lab[first], lab["B"]], [lab["P"], lab["Q"]]]]
+    if rng.random() < 0.4:
+        linked.append([[lab["P"], lab["Q"]], [lab[first], lab["B"]]])
+    m = {"nodes": nodes, "edges": edges, "latlon": False, "kind": "shared_end_linked", "linked": linked}
+    c = {k: v for k, v in ((n[0], n[1]) for n in nodes)}
+    # start near S, biased towards the route that is NOT linked (so that it carries the better probability)
+    s0, tgt = c[lab["S"]], c[lab[second]]
+    t0 = rng.choice([0.1, 0.25, 0.4])
+    o0 = [s0[0] + t0 * (tgt[0] - s0[0]), s0[1] + t0 * (tgt[1] - s0[1])]
+    pq = [(c[lab["P"]][0] + c[lab["Q"]][0]) / 2 + rng.uniform(-0.2, 0.2), (c[lab["P"]][1] + c[lab["Q"]][1]) / 2 + rng.uniform(-0.1, 0.1)]
+    tr = [o0, pq]
+    if rng.random() < 0.6:
+        qr = [(c[lab["Q"]][0] + c[lab["R"]][0]) / 2, (c[lab["Q"]][1] + c[lab["R"]][1]) / 2]
+        tr.append(qr)
+    if rng.random() < 0.3:
+        tr.insert(0, [c[lab["T"]][0] + 0.3, c[lab["T"]][1] + rng.uniform(-0.1, 0.1)])
+    cfg = gen.gen_cfg(rng, families=("simple", "distance"), ne=True, width=rng.choice([False, False, "maybe"]), cut=False)
+    cfg["obs_noise"] = rng.choice([0.5, 1.0, 2.0])
+    cfg["obs_noise_ne"] = rng.choice([None, 3.0, 10.0])
+    cfg["max_dist"] = rng.choice([None, None, 15.0])
+    cfg["restrained_ne"] = rng.random() < 0.3
+    return {"map": m, "trace": tr, "cfg": cfg, "backend": "inmem", "shared_end": True}
+
+
 def gen_case(rng, i, tier):
+    if i % 12 == 5:
+        case = gen_shared_end_case(rng)
+        case["ops"] = gen.gen_history(rng, len(case["trace"]), case["cfg"]["width"], allow_cwd=False, max_ops=2)
+        return case
     if i % 60 == 13:
         case = mcase.gen_large_mcase(rng)
         case["backend"] = "inmem"
@@ -59,6 +110,8 @@ def gen_case(rng, i, tier):
 
 
 def check_case(ctx, case):
+    if case.get("shared_end"):
+        ctx.count("shared_end_linked_cases")
     if case.get("large"):
         ctx.count("large_map_cases")
     m = case["map"]
@@ -107,6 +160,8 @@ def check_case(ctx, case):
                 ctx.count("uturn_moves")
             if (ka, kb) in linked:
                 ctx.count("linked_moves")
+                if case.get("shared_end"):
+                    ctx.count("shared_end_cases_using_the_linked_move")
         if not m.get("linked") and not jumps[0]:
             ctx.count("nodes_only_views")
         if len(set(keys)) >= 3:
@@ -115,12 +170,76 @@ def check_case(ctx, case):
             ctx.violation(f"C04:{kind}:{case['backend']}:{case['cfg']['family']}", case, f"after operation #{i} {op}: {text}")
     try:
         monitors.run_history(mt, tr, case["ops"], after=after)
+        if not jumps[0] and mt.lattice and mt.path:
+            amplify(ctx, case, mt, mp, model)
     finally:
         if sm is not None:
             build.close_sqlite(sm)
     if big[0]:
         ctx.nontriv(case)
     ctx.sample(case)
+
+
+def amplify(ctx, case, mt, mp, model):
+    """Directed amplification.  The property speaks about the best path, but every live lattice entry is the end of a path
+    that becomes the best path for some continuation of the trace.  The lattice is scanned for states / best-predecessor
+    links the map does not offer (hints); for each hint a derived trace is matched on a fresh matcher - the original trace
+    cut after the entry's observation, with that observation moved onto the entry's own state - and the derived result is
+    judged by the same best-path oracle.  Only a confirmed best-path violation is a verdict; an unconfirmed hint is
+    counted (evidence counter lattice_hints_not_confirmed)."""
+    hints, n = oracles.lattice_bad_links(mt, model)
+    ctx.count("lattice_links_scanned", n)
+    if not hints:
+        return
+    ctx.count("lattice_hints", len(hints))
+    path = [tuple(p) for p in mt.path]
+    confirmed = False
+    for x, p, kind in hints[:4]:
+        # aim at an emitting entry whose chain contains the hinted link: x itself, or an emitting successor of a non-emitting x
+        target = x
+        if x.obs_ne != 0:
+            i = x.obs + 1
+            succ = [e for e in mt.lattice[i].values(0) if not e.stop and any(q is x for q in e.prev)] if i in mt.lattice else []
+            if not succ:
+                continue
+            target = succ[0]
+        i = target.obs
+        em = target.edge_m
+        if em.p2 is not None:
+            a = tuple(em.pi[:2]) if em.pi is not None else tuple(em.p1[:2])
+            b = tuple(em.p2[:2])
+        else:
+            a = b = tuple(em.p1[:2])
+        # derived traces: the original observations up to the entry's own observation, followed by 1..3 further observations
+        # ON the entry's state (so that staying on it is the most probable continuation); columns <= i are unaffected
+        for extra in (1, 2, 3):
+            pts = [[a[0] + (b[0] - a[0]) * k / (extra + 1), a[1] + (b[1] - a[1]) * k / (extra + 1)] for k in range(1, extra + 1)]
+            derived = [list(q[:2]) for q in path[:i + 1]] + pts
+            for cfg in (dict(case["cfg"]), dict(case["cfg"], width=None)):
+                m2 = build.make_matcher(mp, cfg)
+                try:
+                    m2.match(build.trace(derived))
+                except Exception:
+                    continue
+                ctx.count("amplified_runs")
+                v = oracles.walk(m2, model, jumps_used=False)
+                if v:
+                    k2, text = v[0]
+                    wit = {"map": case["map"], "trace": derived, "cfg": cfg, "backend": case["backend"],
+                           "ops": [{"op": "match", "k": len(derived), "unique": False}],
+                           "derived_from": {"trace": case["trace"], "ops": case["ops"], "hint": f"{kind}: {p.key if p is not None else None} -> {x.key}"}}
+                    ctx.violation(f"C04:{k2}:{case['backend']}:{case['cfg']['family']}", wit,
+                                  f"[derived trace: {extra} observation(s) appended on the state of a lattice entry whose best-predecessor link "
+                                  f"{p.key if p is not None else ''} -> {x.key} the map does not offer] {text}")
+                    confirmed = True
+                    break
+            if confirmed:
+                break
+        if confirmed:
+            break
+    if not confirmed:
+        # a hinted entry can be dominated (never on a best path for any continuation): counted, reported in the evidence, no verdict
+        ctx.count("lattice_hints_not_confirmed")
 
 
 TECHNIQUE = "runtime monitoring: oracle over the reported best path against the raw graph after every public call of generated histories (both backends)"
